@@ -46,28 +46,34 @@ func (p *PKCS7PaddingReader) Read(buf []byte) (int, error) {
 	var n, off = 0, 0
 	var err error
 	if !p.eof {
-		// 读取文件
-		n, err = p.fIn.Read(buf)
-		if err != nil && !errors.Is(err, io.EOF) {
-			// 错误返回
-			return 0, err
-		}
-		p.readed += int64(n)
-		if errors.Is(err, io.EOF) {
-			// 标志文件结束
-			p.eof = true
+		// 读取文件: io.Reader 允许短读(n < len(buf) 且 err == nil), 因此只有在输入流报告 EOF 之后
+		// 才能认为文件已经结束; 在此之前继续读取直到填满 buf
+		for n < len(buf) && !p.eof {
+			var m int
+			m, err = p.fIn.Read(buf[n:])
+			n += m
+			p.readed += int64(m)
+			if err != nil && !errors.Is(err, io.EOF) {
+				// 错误返回
+				return n, err
+			}
+			if errors.Is(err, io.EOF) {
+				// 标志文件结束
+				p.eof = true
+			}
 		}
 		if n == len(buf) {
 			// 长度足够直接返回
 			return n, nil
 		}
-		// 文件长度已经不足，根据已经已经读取的长度创建Padding
-		p.newPadding()
+		// 文件已经结束，根据已经已经读取的长度创建Padding
 		// 长度不足向Padding中索要
 		off = n
 	}
 
 	if !p.eop {
+		// 输入流可能在恰好填满 buf 的同时返回 EOF, 因此在这里(而不是在读取文件时)创建 Padding
+		p.newPadding()
 		// 读取流
 		var n2 = 0
 		n2, err = p.padding.Read(buf[off:])
